@@ -59,7 +59,10 @@ type c12Req struct {
 	err           *sapi.Error
 }
 
-type C12Job struct{ Sc C12Scenario }
+type C12Job struct {
+	Sc C12Scenario
+	m  *metrics.Metrics // one set of counters for all executions of the job (they influence nothing)
+}
 
 func (j *C12Job) Name() string { return "C12/" + j.Sc.Name }
 
@@ -115,9 +118,19 @@ type c12Outcome struct {
 }
 
 func (j *C12Job) runOnce(ch vch.Chooser, keepTrace bool) (*c12Outcome, *vch.Scheduler) {
+	return j.run(ch, keepTrace, false)
+}
+
+// FreeRun: see C18Job.FreeRun.
+func (j *C12Job) FreeRun() { j.run(nil, false, true) }
+
+func (j *C12Job) run(ch vch.Chooser, keepTrace bool, free bool) (*c12Outcome, *vch.Scheduler) {
 	sc := j.Sc
 	out := &c12Outcome{}
-	m := metrics.New(prometheus.NewRegistry())
+	if j.m == nil {
+		j.m = metrics.New(prometheus.NewRegistry())
+	}
+	m := j.m
 	a := api.New(sc.APISize, m)
 	io := aio.New(sc.CQSize, m)
 	if sc.Flaky {
@@ -164,7 +177,7 @@ func (j *C12Job) runOnce(ch vch.Chooser, keepTrace bool) (*c12Outcome, *vch.Sche
 			answeredAfterLoop = append(answeredAfterLoop, r.data)
 		}
 	}
-	s := vch.Run(ch, vch.Options{MaxSteps: 6000, KeepTrace: keepTrace, DrainOnCut: true, DelayBound: sc.Delay}, func() {
+	body := func() {
 		var clients []*vch.Thread
 		a.AddSubsystem(&frontSubsystem{wait: func() error {
 			if vch.WaitCond("front.Stop(requests in flight)", func() bool {
@@ -218,7 +231,12 @@ func (j *C12Job) runOnce(ch vch.Chooser, keepTrace bool) (*c12Outcome, *vch.Sche
 		for _, c := range clients {
 			vch.Join(c)
 		}
-	})
+	}
+	if free {
+		body()
+		return out, nil
+	}
+	s := vch.Run(ch, vch.Options{MaxSteps: 6000, KeepTrace: keepTrace, DrainOnCut: true, DelayBound: sc.Delay}, body)
 	// ---- oracle ----
 	for _, pn := range s.Panics {
 		out.viol = append(out.viol, "panic: "+pn)
@@ -317,6 +335,9 @@ func (j *C12Job) Run(deadline time.Time) *runner.JobResult {
 	})
 	res.Executions, res.Transitions, res.MaxDepth, res.Capped = ex.Stats.Executions, ex.Stats.Transitions, ex.Stats.MaxDepth, ex.Stats.Capped
 	res.Cut = ex.Stats.Cut
+	if ex.Stats.MemStop {
+		res.Notes = append(res.Notes, "stopped at the memory limit of the worker process: gocoro.Add starts a goroutine for a coroutine that the full scheduler then refuses and never resumes it, so every execution with a refused coroutine leaks one goroutine")
+	}
 	res.States = int64(len(outcomes))
 	for o := range outcomes {
 		res.Outcomes = append(res.Outcomes, o)
@@ -341,6 +362,7 @@ func C12Jobs(tier string) []runner.Job {
 		{Name: "one-client-two-requests/batch-2", APISize: 2, CQSize: 1, SQSize: 1, Workers: 2, CoroMax: 2, SubBatch: 2, CplBatch: 1, Clients: []int{2}, LateShutdown: true, Bound: b},
 		{Name: "request-after-shutdown", APISize: 1, CQSize: 1, SQSize: 1, Workers: 1, CoroMax: 1, SubBatch: 1, CplBatch: 1, Clients: []int{1}, AfterShutdown: true, Bound: b},
 		{Name: "three-clients/pool-1/backpressure", APISize: 2, CQSize: 1, SQSize: 1, Workers: 1, CoroMax: 1, SubBatch: 2, CplBatch: 1, Clients: []int{1, 1, 1}, LateShutdown: true, Bound: b},
+		{Name: "three-clients/pool-1/batch-3", APISize: 3, CQSize: 1, SQSize: 1, Workers: 1, CoroMax: 1, SubBatch: 5, CplBatch: 1, Clients: []int{1, 1, 1}, LateShutdown: true, Bound: b},
 		{Name: "flaky-subsystem", APISize: 2, CQSize: 1, SQSize: 1, Workers: 1, CoroMax: 2, SubBatch: 2, CplBatch: 1, Clients: []int{1, 1}, Flaky: true, LateShutdown: true, Bound: b},
 	}
 	var jobs []runner.Job
@@ -369,6 +391,7 @@ func init() {
 			Rule:   "the real api queue, aio queue, System.Loop / Tick / Shutdown, echo subsystem with its worker goroutines (or a subsystem that refuses and fails by choice) and the protocol-side Process function; 1-3 client threads, an operator requesting shutdown at any moment (or after all answers), a request submitted after Shutdown returned, the loop thread stopping api and aio after Loop like serve.go; queue / pool / batch sizes 1-2; EVERY interleaving at channel-operation granularity within preemption bound 2 (3 thorough), signal timer firings included; distinct = distinct vectors of per-request outcomes",
 			Assume: []string{"the channel operations of api.go, aio.go, system.go, subsystems/api/api.go, echo.go are instrumented by an AST rewriter at check time; sequentially consistent interleavings at channel-operation granularity; gocoro's internal coroutine hand-off is native (deterministic rendezvous)"},
 			QuickS: 150, ThoroughS: 1500,
+			PostCheck: racePass("C12"), Extra: raceExtra,
 		}
 	}
 }
